@@ -28,7 +28,8 @@ TOL = 1e-8
 
 @st.composite
 def _case(draw):
-    n = draw(st.sampled_from([3, 2, 4, 5, 1, 6]))
+    big = draw(st.sampled_from([False] * 11 + [True]))
+    n = draw(st.integers(65, 72)) if big else draw(st.sampled_from([3, 2, 4, 5, 1, 6]))
     n_roots = draw(st.sampled_from([None, 1, 2, 3, None]))
     with_out = draw(st.booleans())
     mt = draw(gen.st_mtree(indices=list(range(n)), outliers=with_out, max_outliers=3, n_roots=n_roots))
@@ -41,9 +42,10 @@ def _case(draw):
         prior_mask=draw(st.lists(st.booleans(), min_size=1, max_size=6)),
         sizes=draw(st.lists(st.integers(1, 4), min_size=1, max_size=6)),
         dims=draw(st.sampled_from([1, 2, 3])),
-        G=draw(st.sampled_from([3, 5, 2, 8, 24, 11])),
+        G=3 if big else draw(st.sampled_from([3, 5, 2, 8, 24, 11])),
         values=draw(gen.st_values_spec(regimes=("moderate", "ties", "flat", "spiky"))),
         reps=[draw(gen.st_repr()) for _ in range(3)],
+        alpha0=draw(st.sampled_from([None, 3.0, 0.2, None])),
     )
 
 
@@ -111,7 +113,17 @@ def evaluate(case):
     data = gen.make_datapoints(values, outlier_prior=case["prior"], prior_mask=case["prior_mask"], sizes=case["sizes"])
     terms = gen.outlier_terms(data)
     alpha = float(case["alpha"])
-    td = TreeJointDistribution(FSCRPDistribution(alpha))
+    if case.get("alpha0") is not None:
+        # a distribution object that has already scored a tree under another concentration value and is then updated
+        # in place (what the run loop does): the density must follow the current value
+        td = TreeJointDistribution(FSCRPDistribution(float(case["alpha0"])))
+        warm = gen.build_repr(mt, data, (dims, G), case["reps"][0])
+        td.log_p(warm)
+        td.log_p_one(warm)
+        td.compute_both_log_p_and_log_p_one(warm)
+        td.prior.alpha = alpha
+    else:
+        td = TreeJointDistribution(FSCRPDistribution(alpha))
     exp_p = fscrp_joint(mt, values, G, alpha, terms, fixed_root=False)
     exp_1 = fscrp_joint(mt, values, G, alpha, terms, fixed_root=True)
     r = len(mt.roots())
@@ -156,6 +168,24 @@ def evaluate(case):
     if same and ho != hash(trees[0][1]):
         raise Violation("identity/eq-hash", "equal trees hash differently", tags)
     classes = ["r=%s" % ("3+" if r >= 3 else r), "alpha!=1" if alpha != 1 else "alpha=1"]
+    if n > 64:
+        classes.append("more-than-64-data-points")
+        # two trees that differ only in where a data point with a large index sits must compare unequal
+        hi = max(mt.all_data())
+        for i, b in enumerate(mt.blocks):
+            if hi in b and len(b) > 1 and mt.k > 1:
+                j = (i + 1) % mt.k
+                blocks2 = [list(x) for x in mt.blocks]
+                blocks2[i].remove(hi)
+                blocks2[j].append(hi)
+                moved = MTree(blocks2, mt.parent, mt.outliers)
+                if moved.key() != mt.key():
+                    t2 = gen.build_repr(moved, data, (dims, G), case["reps"][0])
+                    if t2 == trees[0][1]:
+                        raise Violation("identity/eq", "two trees that differ in the clone of data point %d compare equal" % hi, tags)
+                break
+    if case.get("alpha0") is not None:
+        classes.append("alpha-set-in-place-after-first-evaluation")
     if mt.outliers:
         # same clades, one outlier fewer (a particle one step earlier): must compare unequal
         fewer = MTree(mt.blocks, mt.parent, mt.outliers[1:])
